@@ -760,6 +760,9 @@ std::shared_ptr< numa_vector<V> > diagonal(const crs<V, C, P> &A, bool invert = 
 
 #pragma omp parallel for
     for(ptrdiff_t i = 0; i < static_cast<ptrdiff_t>(n); ++i) {
+        // A row without a stored diagonal entry has a zero diagonal.
+        (*dia)[i] = invert ? math::identity<V>() : math::zero<V>();
+
         for(auto a = A.row_begin(i); a; ++a) {
             if (a.col() == i) {
                 V d = a.value();
